@@ -13,7 +13,9 @@ import (
 
 // c17Case is one request (JSON-able, replayable).
 type c17Case struct {
-	Kind     string            `json:"kind"` // mutation | upload | query | direct
+	Kind     string            `json:"kind"`           // mutation | upload | query | direct | after (a request, then probe requests)
+	Sub      string            `json:"sub,omitempty"`  // after, when Mutation is empty: upload (default) | query
+	Open     string            `json:"open,omitempty"` // after: cold (cache closed and loaded again from its files: no bug in memory) | warm
 	Mutation string            `json:"mutation,omitempty"`
 	Auth     bool              `json:"auth"`
 	Method   string            `json:"method,omitempty"` // POST (default) | GET
@@ -86,10 +88,10 @@ func c17Leaves(s *GQLSchema, f GQLField) []c17Leaf {
 			l.Classes = []string{"OBJ", "NULL", "OMIT"}
 			l.Valid, l.Base = []string{"OBJ"}, "OBJ"
 		case "prefix":
-			l.Classes = []string{"P_FULL", "P_SHORT", "P_UNKNOWN", "P_AMBIG", "P_EMPTY", "P_UPPER", "NULL", "OMIT"}
+			l.Classes = []string{"P_FULL", "P_SHORT", "P_UNKNOWN", "P_AMBIG", "P_EMPTY", "P_UPPER", "NULL", "OMIT", "P_1HEX", "P_2HEX", "P_LONG", "P_HUGE", "P_NONHEX", "P_SPACE"}
 			l.Valid, l.Base = []string{"P_FULL", "P_SHORT"}, "P_FULL"
 		case "target":
-			l.Classes = []string{"T_FULL", "T_SHORT", "T_CREATE", "T_UNKNOWN", "T_EMPTY", "T_BUGID", "NULL", "OMIT"}
+			l.Classes = []string{"T_FULL", "T_SHORT", "T_CREATE", "T_UNKNOWN", "T_EMPTY", "T_BUGID", "NULL", "OMIT", "T_1HEX", "T_2HEX", "T_4HEX", "T_AMBIG", "T_LONG", "T_HUGE", "T_NONHEX", "T_SPACE"}
 			l.Valid, l.Base = []string{"T_FULL", "T_SHORT", "T_CREATE"}, "T_FULL"
 		case "repo":
 			l.Classes = []string{"OMIT", "NULL", "R_DEFAULT", "R_UNKNOWN"}
@@ -132,12 +134,27 @@ func c17Leaves(s *GQLSchema, f GQLField) []c17Leaf {
 	return out
 }
 
+// afterKind is the kind of the request under test of an aftermath case.
+func (c c17Case) afterKind() string {
+	switch {
+	case c.Mutation != "":
+		return "mutation"
+	case c.Sub == "query":
+		return "query"
+	}
+	return "upload"
+}
+
 func c17CaseSig(c c17Case) string {
 	who := "anon"
 	if c.Auth {
 		who = "user"
 	}
 	switch c.Kind {
+	case "after":
+		cc := c
+		cc.Kind = c.afterKind()
+		return "after/" + c.Open + "/" + c17CaseSig(cc)
 	case "mutation":
 		keys := make([]string, 0, len(c.Fields))
 		for k, v := range c.Fields {
@@ -255,6 +272,27 @@ func c17GenCases(r *mon.Run, s *GQLSchema) []c17Case {
 					add(c17Case{Kind: "direct", Mutation: f.Name, Auth: auth, Gen: "direct"})
 				}
 			}
+		}
+		// aftermath: a refused / invalid request with degenerate prefixes, then probes that read bugs which are
+		// not in memory and mutate with a user
+		for rep := 0; rep < r.Pick(1, 8); rep++ {
+			for _, c := range c17AfterCases(leaves, base, f.Name, r.Thorough()) {
+				add(c)
+			}
+		}
+		// thorough: several arguments off at once
+		for i := 0; i < r.Pick(0, 120); i++ {
+			rng := mon.Rng(r.Seed, "c17-after-random-"+f.Name, i+mi*100000)
+			fl := map[string]string{}
+			for _, l := range leaves {
+				fl[l.Path] = pick(rng, l, false)
+			}
+			add(c17Case{Kind: "after", Mutation: f.Name, Auth: rng.Intn(2) == 0, Open: []string{"cold", "warm"}[rng.Intn(2)], Fields: fl, Gen: "after-random"})
+		}
+	}
+	for rep := 0; rep < r.Pick(1, 6); rep++ {
+		for _, v := range []string{"png", "text", "unknown-repo", "wrong-field", "empty"} {
+			add(c17Case{Kind: "after", Auth: false, Open: "cold", Variant: v, Gen: "after-upload"})
 		}
 	}
 	for i := 0; i < r.Pick(2, 30); i++ {
